@@ -113,6 +113,9 @@ func exhaustive(t *testing.T, name string, mode radMode, depth int) {
 				spec := caseSpec{Radius: mode, Pool: "10.64.0.0/29", AuthType: "pap", Steps: decode(i)}
 				res := runStepsOpt(spec, rs, rc, synctest.Wait, false, true)
 				executed++
+				if res.maxSessions == 0 {
+					t.Fatalf("INCONCLUSIVE: the preamble A:PADI A:PADR no longer creates a session; the enumeration would be vacuous")
+				}
 				if res.nontrivial {
 					ntCount++
 				}
